@@ -306,6 +306,9 @@ func (s *Server) CloseConns() {
 	}
 }
 
+// NumConns is the number of client connections currently open.
+func (s *Server) NumConns() int { s.mu.Lock(); defer s.mu.Unlock(); return len(s.conns) }
+
 func (s *Server) Lock()   { s.mu.Lock() }
 func (s *Server) Unlock() { s.mu.Unlock() }
 
